@@ -134,8 +134,8 @@ def run(rep, tier):
         cby[e["type"]]["mutations"] += e["muts"]["total"]
     rep.extra["composite_types"] = cby
     # binding self-test for the composite predicate: a longer re-serialisation / an accepted truncation must be rejected
-    if cev:
-        okc = [e for e in cev if e["clean"]["outcome"] == "ok"]
+    okc = [e for k, e in enumerate(cev) if e["clean"]["outcome"] == "ok" and (k + 1) not in set(cbad)]
+    if okc:
         a = json.loads(json.dumps(okc[0])); a["clean"]["roundtrip"] = False
         b2 = json.loads(json.dumps(okc[-1])); b2["cuts"]["err"] -= 1
         stp = os.path.join(wd, "comp.selftest.ndjson")
